@@ -387,7 +387,6 @@ theorem execAct_thread (r : Req) (s : Sess) (a : Act) (rest : List Act) (live : 
       (by intro e he; simp at he; subst he; rfl) (by intro hl; simp [IEv.isLife, IEv.isExited, IEv.isTerminated] at hl) h hf
     exact ⟨live, pt, pl, rfl, t, by simpa [IEv.isLife, IEv.isExited, IEv.isTerminated] using f, by simpa [safeActs] using hs⟩
   | respond ok => exact ⟨live, pt, pl, rfl, h, hf, by simpa [safeActs] using hs⟩
-  | sendInitialized => exact ⟨live, pt, pl, rfl, h, hf, by simpa [safeActs] using hs⟩
   | endSession => exact ⟨live, pt, pl, rfl, ⟨h.1, h.2, h.3, h.4⟩, hf, by simpa [safeActs] using hs⟩
   | cancelReq n => exact ⟨live, pt, pl, rfl, ⟨h.1, h.2, h.3, h.4⟩, hf, by simpa [safeActs] using hs⟩
   | cancelProg n => exact ⟨live, pt, pl, rfl, ⟨h.1, h.2, h.3, h.4⟩, hf, by simpa [safeActs] using hs⟩
